@@ -36,7 +36,9 @@ Fixpoint is_prefix (a b : list N) : bool :=
 
 Definition mem_path (p : path) (l : list path) : bool := existsb (ln_eqb p) l.
 
-Inductive kind := Reg | Sym | Special.
+(* d.Type() & fs.ModeType of a non-directory: no type bit (regular), exactly ModeSymlink, or any other combination of
+   type bits, kept as a mask: 1 symlink, 2 device, 4 char device, 8 named pipe, 16 socket, 32 irregular *)
+Inductive kind := Reg | Sym | Special (bits : N).
 
 (* fault annotations: which operations of the file system fail on this node *)
 Record ffault := { ff_open : bool;     (* fs.Open(path) fails (not with ErrNotExist) *)
@@ -56,7 +58,7 @@ Definition node_name (nd : node) : name := match nd with File n _ _ _ _ => n | D
 Definition is_dir (nd : node) : bool := match nd with Dir _ _ _ => true | _ => false end.
 Definition node_stat_fails (nd : node) : bool :=
   match nd with File _ _ _ _ ff => ff_stat ff | Dir _ _ df => df_stat df end.
-Definition dummy_node : node := File DOT Special 0%Z 0%N no_ff.
+Definition dummy_node : node := File DOT (Special 8) 0%Z 0%N no_ff.
 
 Definition find_child (n : name) (ch : list node) : option node :=
   find (fun c => N.eqb (node_name c) n) ch.
@@ -288,7 +290,8 @@ Definition hf_dir (c : cfg) (p : path) (ch : list node) (st2 : state) : wres :=
 
 (* the rest of handleFile for a non-directory *)
 Definition hf_file (c : cfg) (p : path) (k : kind) (size : Z) (ff : ffault) (st2 : state) : wres :=
-  let accepted := match k with Reg => true | Sym => c_symlinks c | Special => false end in
+  (* !IsRegular: ignored unless ReadSymlinks and (Type() & ModeType) == ModeSymlink *)
+  let accepted := match k with Reg => true | Sym => c_symlinks c | Special _ => false end in
   if negb accepted then WOk st2 Continue
   else if c_gitignore c && gi_match_stack c (s_stack st2) p false then WOk st2 Continue
   else run_exts c p size ff (c_exts c) false st2.
@@ -412,12 +415,13 @@ Fixpoint walk_individual_paths (c : cfg) (t : node) (ps : list path) (st : state
         | Some (Dir n ch df) =>
             let st0 := if c_gitignore c
                        then match parse_parent_gitignores t p with
-                            | None => None
+                            | None => if c_fatal c then None          (* unreadable parent .gitignore: fatal only on request *)
+                                      else Some (set_stack st [])     (* else logged; no parent patterns *)
                             | Some ms => Some (set_stack st ms)
                             end
                        else Some st in
             match st0 with
-            | None => WOk st (Abort AbGi)
+            | None => WOk st (Abort AbFs)
             | Some st0 =>
                 match walk_dir_unsorted c t p st0 with
                 | WPanic st' pc => WPanic st' pc
